@@ -186,13 +186,16 @@ theorem rep_wait_wgp1 (hn : 0 < s.n) (b : Nat) (hb : b < s.k) :
       · exact Or.inl ⟨h1, rfl, h3⟩
       · exact Or.inr ⟨h1, rfl, h3⟩
 
-theorem rep_done_rund : Rep ((mkSpec s.par).donePay oRund tL) (fun c i s' => (c = 11 ∨ c = 12) ∧ i = 0 ∧ s' = 0) := by
-  show Rep ((mkSpec s.par).donePay (enc 12 0) (enc 1 0)) _
-  rw [donePay_rund]
+/-- what the core loop hands over when it closes the per-run channel -/
+theorem rep_close_rundone : Rep ((mkSpec s.par).closePay oRunDone) (fun c i s' => (c = 11 ∨ c = 12) ∧ i = 0 ∧ s' = 0) := by
+  show Rep ((mkSpec s.par).closePay (enc 14 0)) _
+  rw [closePay_rundone]
   intro k
   simp only [List.mem_cons, List.mem_nil_iff, or_false,
     eq_tk_iff (c := 11) (s := 0) (by decide) (by decide), eq_tk_iff (c := 12) (s := 0) (by decide) (by decide)]
   omega
+
+theorem donePay_oRund (u : Tid) : (mkSpec s.par).donePay oRund u = [] := donePay_rund s.par u
 
 /-- what the core loop is given at its start -/
 theorem rep_spawn_tL (blk : Nat) (hblk : blk = if s.merged then 1 else 0) :
@@ -474,11 +477,12 @@ theorem typedL_loop2 (hn : 0 < s.n) (hk : s.k0 ≤ s.k) :
     toksub
 
 theorem typedL_tail :
-    HT (mkSpec s.par) s.kids tL TailS [.recvC oNbClose, .lock oWsm, .rd vWsa, .unlock oWsm, .wgDone oRund] EmptyS := by
+    HT (mkSpec s.par) s.kids tL TailS
+      [.recvC oNbClose, .lock oWsm, .rd vWsa, .unlock oWsm, .close oRunDone, .wgDone oRund] EmptyS := by
   refine HT.cons (HT.recvC0 _) ?_
-  refine HT.seq (a := [.lock oWsm, .rd vWsa, .unlock oWsm]) (b := [.wgDone oRund])
+  refine HT.seq (a := [.lock oWsm, .rd vWsa, .unlock oWsm]) (b := [.close oRunDone, .wgDone oRund])
     (HT.wsm (p := s.par) _ (by tokarith) (Or.inl rfl)) ?_
-  exact (HT.wgDone (rep_done_rund s) (by toksub)).post (by toksub)
+  exact HT.cons (HT.close (rep_close_rundone s) (by toksub)) ((HT.wgDone0 (donePay_oRund s _)).post (by toksub))
 
 theorem typedL (hn : 0 < s.n) : HT (mkSpec s.par) s.kids tL EmptyS s.progL EmptyS := by
   unfold progL
